@@ -65,6 +65,15 @@ impl Oracle {
             let dup_present = idxs.len() > d;
             ctx.stats.state(mix(mix(t as u64, (d.min(t + 2) as i64 - t as i64 + 8) as u64), dup_present as u64));
             if d < t {
+                // The aggregator learns how many DISTINCT reports a bucket holds only by trying. The failed
+                // attempt is a fault of its own: it must leave nothing behind that colours the next bucket's
+                // recovery on this thread (whether it fails as it should is C02's business).
+                if !idxs.is_empty() && ctx.ch.chance(1, 2) {
+                    let shares: Vec<_> = idxs.iter().filter_map(|&i| Message::from_bytes(&w.delivered[i].bytes)).map(|m| m.share).collect();
+                    if share_recover(&shares).is_err() {
+                        ctx.stats.fault("failed_recovery_attempt_below_threshold");
+                    }
+                }
                 continue;
             }
             // ---- draw a selection: t distinct points, then surplus/repeats, then permute
